@@ -314,6 +314,32 @@ func c16Patterns(thorough bool) []string {
 	return pats
 }
 
+// c16BuildBig builds the large tree: 12 files a0…a11, .h and 12 directories d0…d11 per level, d1/d1/d1/d1 four levels deep.
+func c16BuildBig(base string) (string, bool) {
+	root := filepath.Join(base, "big")
+	os.RemoveAll(root)
+	ok := true
+	mk := func(dir string) {
+		if os.MkdirAll(dir, 0o755) != nil {
+			ok = false
+		}
+		for i := 0; i < 12; i++ {
+			if os.WriteFile(filepath.Join(dir, fmt.Sprintf("a%d", i)), nil, 0o644) != nil {
+				ok = false
+			}
+		}
+		os.WriteFile(filepath.Join(dir, ".h"), nil, 0o644)
+	}
+	mk(root)
+	for i := 0; i < 12; i++ {
+		mk(filepath.Join(root, fmt.Sprintf("d%d", i)))
+	}
+	mk(filepath.Join(root, "d1", "d1"))
+	mk(filepath.Join(root, "d1", "d1", "d1"))
+	mk(filepath.Join(root, "d1", "d1", "d1", "d1"))
+	return root, ok
+}
+
 func c16Run(w *W) {
 	base := filepath.Join(verifDir, "tmp", fmt.Sprintf("c16-%d", os.Getpid()))
 	if err := os.MkdirAll(base, 0o755); err != nil {
@@ -358,27 +384,7 @@ func c16Run(w *W) {
 	}
 	// a large tree: 12 files and 12 directories per level (names above a9 sort before a2), four levels deep
 	if w.Mine() {
-		root := filepath.Join(base, "big")
-		os.RemoveAll(root)
-		ok := true
-		mk := func(dir string) {
-			if os.MkdirAll(dir, 0o755) != nil {
-				ok = false
-			}
-			for i := 0; i < 12; i++ {
-				if os.WriteFile(filepath.Join(dir, fmt.Sprintf("a%d", i)), nil, 0o644) != nil {
-					ok = false
-				}
-			}
-			os.WriteFile(filepath.Join(dir, ".h"), nil, 0o644)
-		}
-		mk(root)
-		for i := 0; i < 12; i++ {
-			mk(filepath.Join(root, fmt.Sprintf("d%d", i)))
-		}
-		mk(filepath.Join(root, "d1", "d1"))
-		mk(filepath.Join(root, "d1", "d1", "d1"))
-		mk(filepath.Join(root, "d1", "d1", "d1", "d1"))
+		root, ok := c16BuildBig(base)
 		if ok && os.Chdir(root) == nil {
 			w.Count("states", 1)
 			w.Announce("large tree")
@@ -421,9 +427,19 @@ func init() {
 			base := filepath.Join(os.TempDir(), fmt.Sprintf("c16-replay-%d", os.Getpid()))
 			os.MkdirAll(base, 0o755)
 			defer os.RemoveAll(base)
-			root, err := c16Build(base, c.Tree)
-			if err != nil {
-				return err
+			var root string
+			if len(c.Tree) == 1 && strings.HasPrefix(c.Tree[0].Name, "large tree") {
+				r, ok := c16BuildBig(base)
+				if !ok || os.Chdir(r) != nil {
+					return fmt.Errorf("cannot build the large tree")
+				}
+				root = r
+			} else {
+				r, err := c16Build(base, c.Tree)
+				if err != nil {
+					return err
+				}
+				root = r
 			}
 			defer os.Chdir("/")
 			if d, _, _ := c16Judge(root, c.Pattern); d != "" {
